@@ -75,7 +75,7 @@ func (g *Gateway) HandleGatewayProtocol(w http.ResponseWriter, r *http.Request) 
 		t = x.(*Tunnel)
 	}
 	ctx = context.WithValue(ctx, CtxTunnel, t)
-	verifHook("gw.enter", t, r.Method, found, id.UserName(), id.Authenticated())
+	verifHook("gw.enter", t, r.Method, found, id.UserName(), id.Authenticated(), r.Header.Get(rdgConnectionIdKey))
 	defer verifHook("gw.exit", t, r.Method)
 
 	if r.Method == MethodRDGOUT {
